@@ -164,6 +164,22 @@ void table(Tab& t)
         SCN("static_vector<int,3>", "insert(pos,first,last)", "size=%zu,range-exceeds-room", n, true, {
             SV v; fill_vec(v, n); vf::Buf<int> src(4 - n); for (std::size_t i = 0; i < src.size(); ++i) { src[i] = 7; }
             int const* f = src.data(); int const* l = src.data() + src.size(); WATCH(v); v.insert(v.cbegin(), f, l); });
+        for (std::size_t back : {std::size_t(1), std::size_t(2), std::size_t(3)}) { // reversed ranges whose length does not exceed size(): "size() + (last - first)" wraps
+            char sb[64];
+            std::snprintf(sb, sizeof sb, "size=%zu,first>last-by-%zu", n, back);
+            SCN("static_vector<int,3>", "insert(pos,first,last)", "%s", sb, true, {
+                SV v; fill_vec(v, n); vf::Buf<int> src(4); for (std::size_t i = 0; i < 4; ++i) { src[i] = 7; }
+                int const* f = src.data() + back; int const* l = src.data(); WATCH(v); v.insert(v.cbegin(), f, l); });
+            SCN("static_vector<int,3>", "move_insert(pos,first,last)", "%s", sb, true, {
+                SV v; fill_vec(v, n); vf::Buf<int> src(4); for (std::size_t i = 0; i < 4; ++i) { src[i] = 7; }
+                WATCH(v); v.move_insert(v.cbegin(), src.data() + back, src.data()); });
+            SCN("static_vector<int,3>", "assign(first,last)", "%s", sb, true, {
+                SV v; fill_vec(v, n); vf::Buf<int> src(4); for (std::size_t i = 0; i < 4; ++i) { src[i] = 7; }
+                int const* f = src.data() + back; int const* l = src.data(); WATCH(v); v.assign(f, l); });
+            SCN("static_vector<tracked,3>", "insert(pos,first,last)", "%s", sb, true, {
+                SVT v; fill_vec(v, n); vf::Buf<vf::TCM> src(4); for (std::size_t i = 0; i < 4; ++i) { new (src.data() + i) vf::TCM(7); }
+                vf::TCM const* f = src.data() + back; vf::TCM const* l = src.data(); WATCH(v); v.insert(v.cbegin(), f, l); });
+        }
         SCN("static_vector<int,3>", "move_insert(pos,first,last)", "size=%zu,range-exceeds-room", n, true, {
             SV v; fill_vec(v, n); vf::Buf<int> src(4 - n); for (std::size_t i = 0; i < src.size(); ++i) { src[i] = 7; }
             WATCH(v); v.move_insert(v.cbegin(), src.data(), src.data() + src.size()); });
